@@ -51,6 +51,19 @@ Proof.
   rewrite del_loop_sw. reflexivity.
 Qed.
 
+(* ---- floats: the cost row over the denominator s, the mistakes row over 1 ------------------------------------- *)
+Lemma b2f_zf1 : forall b : bool, b2f b = zf 1 (if b then 1 else 0).
+Proof. intros []; unfold b2f, zf; rewrite qz_1; reflexivity. Qed.
+
+Lemma fge_zf : forall s a b, fge (zf s a) (zf s b) = (b <=? a).
+Proof. intros. unfold zf. apply fge_qz. Qed.
+
+Lemma fadd_zf_q : forall s a b, fadd (zf s a) (Fq (qz s b)) = zf s (a + b).
+Proof. intros. apply fadd_zf. Qed.
+
+Lemma one_qz : (1 # 1)%Q = qz 1 1.
+Proof. reflexivity. Qed.
+
 (* ---- one step of the two tables, by index ---------------------------------------------------------------- *)
 Section Step.
   Variables (ci cd cs : Z) (R H : nat).
@@ -75,6 +88,42 @@ Section Step.
     | O => mcol 0%nat + im
     | S i' => if lcol i' + cs * ne i' <=? lcol (S i') + ci * im then mcol i' + ne i' else mcol (S i') + im
     end.
+
+  (* the float expressions the interpreted body leaves at entry i of the two tables before the deletion loop *)
+  Lemma zf_if : forall s (b : bool) u v, (if b then zf s u else zf s v) = zf s (if b then u else v).
+  Proof. intros s [] u v; reflexivity. Qed.
+
+  Lemma cx_src : forall s i,
+    match i with
+    | O => fadd (zf s (lcol 0%nat)) (fmul (Fq (qz s ci)) (b2f (Z.of_nat hlen >=? Z.of_nat k)%Z))
+    | S i' =>
+        if fge (fadd (zf s (lcol (S i'))) (fmul (Fq (qz s ci)) (b2f (Z.of_nat hlen >=? Z.of_nat k)%Z)))
+               (fadd (zf s (lcol i')) (fmul (Fq (qz s cs)) (b2f (negb (rcol i' =? hcol (k - 1)%nat)%Z))))
+        then fadd (zf s (lcol i')) (fmul (Fq (qz s cs)) (b2f (negb (rcol i' =? hcol (k - 1)%nat)%Z)))
+        else fadd (zf s (lcol (S i'))) (fmul (Fq (qz s ci)) (b2f (Z.of_nat hlen >=? Z.of_nat k)%Z))
+    end = zf s (cx i).
+  Proof.
+    intros s i. unfold cx, im, ne.
+    replace (Z.of_nat hlen >=? Z.of_nat k)%Z with (k <=? hlen)%nat by lia.
+    destruct i as [|i']; rewrite !fmul_zf_b2f, !fadd_zf, ?fge_zf, ?zf_if; [reflexivity|].
+    destruct (rcol i' =? hcol (k - 1)%nat); reflexivity.
+  Qed.
+
+  Lemma cm_src : forall s i,
+    match i with
+    | O => fadd (zf 1 (mcol 0%nat)) (b2f (Z.of_nat hlen >=? Z.of_nat k)%Z)
+    | S i' =>
+        if fge (fadd (zf s (lcol (S i'))) (fmul (Fq (qz s ci)) (b2f (Z.of_nat hlen >=? Z.of_nat k)%Z)))
+               (fadd (zf s (lcol i')) (fmul (Fq (qz s cs)) (b2f (negb (rcol i' =? hcol (k - 1)%nat)%Z))))
+        then fadd (zf 1 (mcol i')) (b2f (negb (rcol i' =? hcol (k - 1)%nat)%Z))
+        else fadd (zf 1 (mcol (S i'))) (b2f (Z.of_nat hlen >=? Z.of_nat k)%Z)
+    end = zf 1 (cm i).
+  Proof.
+    intros s i. unfold cm, im, ne.
+    replace (Z.of_nat hlen >=? Z.of_nat k)%Z with (k <=? hlen)%nat by lia.
+    destruct i as [|i']; rewrite ?fmul_zf_b2f, !b2f_zf1, !fadd_zf, ?fge_zf, ?zf_if; [reflexivity|].
+    destruct (rcol i' =? hcol (k - 1)%nat); reflexivity.
+  Qed.
 
   Hypothesis Hk : (1 <= k <= H)%nat.
 
@@ -180,19 +229,6 @@ Section Step.
     - cbn [fst snd]. unfold last, lastm. now rewrite !map_length, seq_length.
   Qed.
 End Step.
-
-(* ---- floats: the cost row over the denominator s, the mistakes row over 1 ------------------------------------- *)
-Lemma b2f_zf1 : forall b : bool, b2f b = zf 1 (if b then 1 else 0).
-Proof. intros []; unfold b2f, zf; rewrite qz_1; reflexivity. Qed.
-
-Lemma fge_zf : forall s a b, fge (zf s a) (zf s b) = (b <=? a).
-Proof. intros. unfold zf. apply fge_qz. Qed.
-
-Lemma fadd_zf_q : forall s a b, fadd (zf s a) (Fq (qz s b)) = zf s (a + b).
-Proof. intros. apply fadd_zf. Qed.
-
-Lemma one_qz : (1 # 1)%Q = qz 1 1.
-Proof. reflexivity. Qed.
 
 (* ---- the tables of the model as an iteration -------------------------------------------------------------------- *)
 Fixpoint iter_rm (ci cd cs : Z) (r h : list Z) (hlen : nat) (fuel k : nat) (st : list Z * list Z) : list Z * list Z :=
